@@ -46,8 +46,22 @@ func (c01) Plan(tier string, seed int64) []mon.Workload {
 		{Name: "programs", N: n},
 		{Name: "builtin-shapes", N: int64(len(gen.Shapes) * len(c01Subjects) * 4), Exhaustive: true},
 		{Name: "self-containing", N: 6},
+		{Name: "store-consume", N: int64(len(c01Stores) * len(c01StoreVals) * len(c01Consumers)), Exhaustive: true},
 	}
 }
+
+// store-consume: a builtin writes a value into the point, then the key is
+// read back through every kind of consumer (nothing here is a script
+// variable, so every read goes through the point's key index).
+var c01Stores = []string{"add_key(k, %s)", "v = %s\nadd_key(v)\nrename(k, v)", "set_tag(k, \"x\")\nadd_key(k, %s)", "add_key(k, %s)\nset_tag(k)",
+	"add_key(k, %s)\ncast(k, \"str\")", "add_key(k, %s)\ncast(k, \"int\")", "add_key(k, %s)\ntrim(k)", "add_key(k, %s)\nstrfmt(k, \"%%v\", k)",
+	"add_key(k, %s)\nrename(k2, k)\nrename(k, k2)", "add_key(k, nil)\nset_tag(k, \"v\")\nadd_key(j, %s)", "add_key(k, %s)\nuppercase(k)", "add_key(k, %s)\ndrop_key(k)\nadd_key(k)"}
+var c01StoreVals = []string{"nil", "true", "7", "2.5", "\"text\"", "\"\"", "[1, \"a\", [2]]", "[]", "{\"a\": 1}", "{}", "void()", "-false", "\"[1,2]\""}
+var c01Consumers = []string{"p(len(k))", "p(k[0:1])", "p(k[::-1])", "p(k[0])", "for e in k { p(e) }", "p(k + 1)", "p(k + \"s\")", "p(1 in k)", "p(\"a\" in k)",
+	"p(!k, -k)", "p(k == k, k < 1)", "x = k\nx[0] = 1\np(x)", "k[0] = 1", "k += 1", "if k { p(1) }", "trim(k)", "cast(k, \"float\")", "uppercase(k)",
+	"strfmt(z, \"%%v %%d %%s\", k, k, k)", "set_tag(k)", "rename(z, k)\np(z)", "default_time(k)", "xml(k, \"/a\", z)", "p(load_json(k))", "replace(k, \"a\", \"b\")",
+	"url_decode(k)", "sql_cover(k)", "datetime(k, \"s\", \"RFC3339\")", "grok(k, \"%%{WORD:w}\")", "p(get_key(k))", "set_measurement(k, true)", "printf(\"%%v\\n\", k)",
+	"p([k, k], {\"q\": k})", "add_key(o, k)\np(o[0:1], len(o))"}
 
 func hostilePoint(c *mon.Ctx, variant int) (*input.Point, string) {
 	r := c.Sub(fmt.Sprint("pt", variant))
@@ -97,6 +111,21 @@ func (c01) build(c *mon.Ctx, workload string, i int64) (main []*gt.T, lib []*gt.
 		stmts = append(stmts, call, gt.Assign("=", gt.Ident("r"), gt.Clone(call)), gt.Call("p", gt.Ident("r"), gt.Ident("v")),
 			gt.If(gt.Clone(call), gt.Call("p", gt.Int(1))))
 		return stmts, []*gt.T{gt.Call("p", gt.Str("lib"))}
+	case "store-consume":
+		ci := int(i % int64(len(c01Consumers)))
+		i /= int64(len(c01Consumers))
+		vi := int(i % int64(len(c01StoreVals)))
+		si := int(i / int64(len(c01StoreVals)))
+		text := fmt.Sprintf(strings.ReplaceAll(c01Stores[si], "%%", "%%%%"), c01StoreVals[vi]) + "\n" + strings.ReplaceAll(c01Consumers[ci], "%%", "%") + "\np(\"survived\")\n"
+		o := drive.Parse("sc", text)
+		if o.Err != nil {
+			panic("c01: store-consume program does not parse: " + text + ": " + o.Err.Error())
+		}
+		l, err := gt.FromStmts(o.Stmts)
+		if err != nil {
+			panic(err)
+		}
+		return gt.CloneStmts(l), []*gt.T{gt.Call("p", gt.Str("lib"))}
 	case "self-containing":
 		a := gt.Assign("=", gt.Ident("a"), gt.List(gt.Int(1), gt.Int(2)))
 		self := gt.Assign("=", gt.Index("a", gt.Int(0)), gt.Ident("a"))
